@@ -14,3 +14,22 @@ pub fn instant_elapsed(_this: &Instant) -> Duration { Duration::ZERO }
 
 /// for panic paths that format their message
 pub fn format_stub(_args: std::fmt::Arguments<'_>) -> String { String::new() }
+
+/// `core::mem::swap` as one typed move each way.  Behaviourally identical to the real one; the
+/// real implementation swaps large values in a loop over 8-byte chunks (33 iterations for one
+/// table of the model), which would force every harness to unwind every loop that far.
+pub fn mem_swap<T>(x: &mut T, y: &mut T) {
+   unsafe {
+      let tmp = std::ptr::read(x);
+      std::ptr::copy_nonoverlapping(y as *const T, x as *mut T, 1);
+      std::ptr::write(y, tmp);
+   }
+}
+
+/// Growth of a heap buffer (`Vec` beyond its capacity) is treated as a *bound* of the harness:
+/// reachable growth fails the harness with the table-model capacity message (the driver reports
+/// "bound too small", never a pass); unreachable growth costs nothing.  Without this stub every
+/// `push`/`append` carries a `realloc` + `memcpy` of symbolic size that CBMC cannot prune.
+pub unsafe fn realloc_is_out_of_bound(_ptr: *mut u8, _layout: std::alloc::Layout, _new_size: usize) -> *mut u8 {
+   panic!("capacity of the table model exceeded (a Vec grew beyond its allocated capacity)")
+}
